@@ -1,5 +1,5 @@
 //! Calls: configured functions, whitelisted integer / Option / range methods.
-use crate::expr::app;
+use crate::expr::{app, strip_parens};
 use crate::tr::*;
 use crate::types::*;
 use syn::*;
@@ -14,18 +14,41 @@ impl<'a> Tr<'a> {
         Ok(Val { s, ty })
     }
 
+    /// a method of the same impl header as the function being translated: its abstracted `R::ITEM` parameters are the
+    /// caller's own parameters of the same names
+    pub fn inherited_assoc(&self, f: &FnInfo, env: &Env) -> Option<Vec<String>> {
+        if f.assoc_params.is_empty() || !f.generic_names.is_empty() || f.self_ty.is_none() || f.self_ty != self.self_ty {
+            return None;
+        }
+        let me = self.t.fns.iter().find(|g| g.coq == self.fn_coq)?;
+        if me.impl_args != f.impl_args {
+            return None;
+        }
+        let mut out = vec![];
+        for (k, t) in f.assoc_params.iter() {
+            match env.get(k) {
+                Some(v) if v.ty == *t => out.push(v.coq.clone()),
+                _ => return None,
+            }
+        }
+        Some(out)
+    }
+
     pub fn apply_fn_raw(&mut self, f: &FnInfo, cg: &[Val], recv: Option<&Val>, args: &[&Expr], env: &Env, at: &Expr) -> R<(String, Ty)> {
         if f.has_mut_params() || f.fuel {
             return Err(unsupported(at, &format!("call of `{}` (`&mut` parameters / fuel) in a position where its effects cannot be sequenced", f.key)));
         }
-        if !f.assoc_params.is_empty() && self.turbofish_types.is_none() {
+        let inherited = self.inherited_assoc(f, env);
+        if !f.assoc_params.is_empty() && self.turbofish_types.is_none() && inherited.is_none() {
             return Err(unsupported(at, &format!("call of `{}`, whose generic parameters' associated constants are abstracted as parameters", f.key)));
         }
         if cg.len() != f.const_generics.len() {
             return Err(unsupported(at, &format!("call of `{}` needs {} const generic argument(s) written with a turbofish", f.key, f.const_generics.len())));
         }
         let mut a: Vec<String> = self.mvar_args(&f.mvars, env, at)?;
-        if !f.assoc_params.is_empty() {
+        if let (Some(inh), true) = (&inherited, self.turbofish_types.is_none()) {
+            a.extend(inh.iter().cloned());
+        } else if !f.assoc_params.is_empty() {
             // `callee::<A, B>(..)`: the callee's `R::CONST` parameters are `A::CONST` in the caller
             let targs = self.turbofish_types.take().unwrap();
             if targs.len() != f.generic_names.len() {
@@ -135,13 +158,32 @@ impl<'a> Tr<'a> {
 
     pub fn call(&mut self, c: &ExprCall, env: &Env, hint: Option<&Ty>) -> R<Val> {
         let at = &Expr::Call(c.clone());
-        let p = match &*c.func {
+        let p = match strip_parens(&c.func) {
             Expr::Path(p) if p.qself.is_none() => p,
             _ => return Err(unsupported(at, "call of something that is not a path")),
         };
         let segs: Vec<String> = p.path.segments.iter().map(|s| s.ident.to_string()).collect();
         let last = p.path.segments.last().unwrap();
         let args: Vec<&Expr> = c.args.iter().collect();
+        if segs.len() >= 2 && self.generic_tys.contains(&segs[0]) {
+            // an associated function of a generic type parameter: a function parameter of the translated definition
+            let key = generic_item_key(&p.path);
+            return match env.get(&key) {
+                Some(v) => match &v.ty {
+                    Ty::Fn(ptys, rty) if ptys.len() == args.len() => {
+                        let mut a = vec![];
+                        for (x, pt) in args.iter().zip(ptys.iter()) {
+                            let av = self.pure(x, env, Some(pt))?;
+                            join(&av.ty, pt).map_err(|m| unsupported(at, &m))?;
+                            a.push(av.s);
+                        }
+                        Ok(Val { s: app(&v.coq, &a), ty: (**rty).clone() })
+                    }
+                    _ => Err(unsupported(at, &format!("call of `{}`, whose `assoc` type is not a function of {} arguments", key, args.len()))),
+                },
+                None => Err(unsupported(at, &format!("associated function `{}` of a generic parameter (give `assoc <name> fn(..)->..`)", key))),
+            };
+        }
         if segs.len() == 1 {
             let n = segs[0].as_str();
             if (n == "Ok" || n == "Err") && args.len() == 1 {
@@ -229,6 +271,14 @@ impl<'a> Tr<'a> {
                     Ty::Bool => Ok(Val { s: format!("(if {} then 1 else 0)", v.s), ty: Ty::int(t) }),
                     _ => Err(unsupported(at, &format!("`{}::from` on {}", tname, v.ty.show()))),
                 };
+            }
+            if (fname == "from_le_bytes" || fname == "from_be_bytes") && args.len() == 1 && !t.signed() {
+                let n = (t.bits() / 8) as usize;
+                let want = Ty::Tuple(vec![Ty::int(IntTy::U8); n]);
+                let v = self.pure(args[0], env, Some(&want))?;
+                join(&v.ty, &want).map_err(|m| unsupported(at, &m))?;
+                let names: Vec<String> = (0..n).map(|i| format!("b{}_", i)).collect();
+                return Ok(Val { s: format!("(let '({}) := {} in Casts.{} [{}])", names.join(", "), v.s, fname, names.join("; ")), ty: Ty::int(t) });
             }
             return Err(unsupported(at, &format!("`{}::{}`", tname, fname)));
         }
@@ -334,6 +384,23 @@ impl<'a> Tr<'a> {
         let at = &Expr::MethodCall(m.clone());
         let name = m.method.to_string();
         let args: Vec<&Expr> = m.args.iter().collect();
+        if name == "unwrap" && args.is_empty() {
+            if let Expr::MethodCall(inner) = &*m.receiver {
+                if inner.method == "try_into" && inner.args.is_empty() {
+                    // `slice.try_into().unwrap()`: the array (N-tuple) of a slice; N must be known from the context
+                    let sv = self.pure(&inner.receiver, env, None)?;
+                    let elem = match &sv.ty {
+                        Ty::Slice(t) if t.is_int() => (**t).clone(),
+                        t => return Err(unsupported(at, &format!("`try_into().unwrap()` on {} (only slice of integers -> array)", t.show()))),
+                    };
+                    let n = match hint {
+                        Some(Ty::Tuple(ts)) if (2..=4).contains(&ts.len()) && ts.iter().all(|t| join(t, &elem).is_ok()) => ts.len(),
+                        _ => return Err(unsupported(at, "`slice.try_into().unwrap()` whose array length (2..4) is not known from an annotation or from its use")),
+                    };
+                    return Ok(Val { s: format!("(Casts.array{}_of_slice {})", n, sv.s), ty: Ty::Tuple(vec![elem; n]) });
+                }
+            }
+        }
         let recv = self.pure(&m.receiver, env, None)?;
         match recv.ty.clone() {
             Ty::Int(t) => self.int_method(&name, recv, t, m, &args, env, hint, at),
@@ -380,6 +447,33 @@ impl<'a> Tr<'a> {
             }
             Ty::Option(inner) => self.option_method(&name, recv, &inner, &args, env, hint, at),
             Ty::Slice(elem) => match (name.as_str(), args.len()) {
+                ("get", 1) if matches!(strip_parens(args[0]), Expr::Range(_)) => {
+                    let r = match strip_parens(args[0]) {
+                        Expr::Range(r) => r,
+                        _ => unreachable!(),
+                    };
+                    if !matches!(r.limits, RangeLimits::HalfOpen(_)) {
+                        return Err(unsupported(at, "slice.get with an inclusive range"));
+                    }
+                    let us = Ty::int(IntTy::Usize);
+                    let a = match &r.start {
+                        Some(a) => {
+                            let v = self.pure(a, env, Some(&us))?;
+                            join(&v.ty, &us).map_err(|m| unsupported(at, &m))?;
+                            v.s
+                        }
+                        None => "0".to_string(),
+                    };
+                    let s = match &r.end {
+                        Some(b) => {
+                            let v = self.pure(b, env, Some(&us))?;
+                            join(&v.ty, &us).map_err(|m| unsupported(at, &m))?;
+                            format!("(Casts.slice_range {} {} {})", recv.s, a, v.s)
+                        }
+                        None => format!("(Casts.slice_from {} {})", recv.s, a),
+                    };
+                    Ok(Val { s, ty: Ty::Option(Box::new(recv.ty.clone())) })
+                }
                 ("get", 1) => {
                     let i = self.pure(args[0], env, Some(&Ty::int(IntTy::Usize)))?;
                     if !i.ty.is_int() {
@@ -465,6 +559,16 @@ impl<'a> Tr<'a> {
                 let a = arg(self, 0, &same)?;
                 let ty = join(&same, &a.ty).map_err(|e| unsupported(at, &e))?;
                 Ok(Val { s: format!("(Z.{} {} {})", name, recv.s, a.s), ty })
+            }
+            ("to_le_bytes", 0) | ("to_be_bytes", 0) => {
+                let t = need(name)?;
+                if t.signed() || t.bits() < 16 || t.bits() > 32 {
+                    return Err(unsupported(at, &format!("`{}` on {} (only u16 / u32)", name, t.name())));
+                }
+                let n = (t.bits() / 8) as usize;
+                let idx: Vec<usize> = if name == "to_le_bytes" { (0..n).collect() } else { (0..n).rev().collect() };
+                let bytes: Vec<String> = idx.iter().map(|k| format!("Casts.byte_of v_ {}", k)).collect();
+                Ok(Val { s: format!("(let v_ := {} in ({}))", recv.s, bytes.join(", ")), ty: Ty::Tuple(vec![Ty::int(IntTy::U8); n]) })
             }
             ("abs", 0) => {
                 if !need("abs")?.signed() {
@@ -589,6 +693,24 @@ impl<'a> Tr<'a> {
                     }
                     _ => Err(unsupported(at, "`.map(Into::into)` to a type that is not an abstract/extern type")),
                 }
+            }
+            ("map", 1) if matches!(args[0], Expr::Path(_)) => {
+                // `.map(Type::function)`: the function applied to the payload
+                let fresh = self.fresh("v");
+                let mut env2 = env.clone();
+                env2.push("r2c_map_arg", var(fresh.clone(), inner.clone()));
+                let call: Expr = Expr::Call(ExprCall {
+                    attrs: vec![],
+                    func: Box::new(args[0].clone()),
+                    paren_token: Default::default(),
+                    args: std::iter::once::<Expr>(syn::parse_str("r2c_map_arg").unwrap()).collect(),
+                });
+                let ih = match hint {
+                    Some(Ty::Option(t)) => Some((**t).clone()),
+                    _ => None,
+                };
+                let b = self.pure(&call, &env2, ih.as_ref())?;
+                Ok(Val { s: format!("(match {} with | Some {} => Some {} | None => None end)", recv.s, fresh, b.s), ty: Ty::Option(Box::new(b.ty)) })
             }
             ("map", 1) => {
                 let ih = match hint {
